@@ -41,4 +41,8 @@ def sendRechecksUnderLock : Bool := true
 /-- Transport._send_kex_init: clear_to_send is cleared under the lock before KEXINIT is written -/
 def kexInitClearsBeforeWrite : Bool := true
 
+/-- Packetizer.read_message, branch `if need_rekey`: (counter, limit) of each comparison in the test that raises
+"Remote transport is ignoring rekey requests" -/
+def overflowTests : List (String × String) := [("received_packets_overflow", "REKEY_PACKETS_OVERFLOW_MAX"), ("received_bytes_overflow", "REKEY_BYTES_OVERFLOW_MAX")]
+
 end PV.Generated.C11
